@@ -870,4 +870,29 @@ theorem indexCore_level_le (a : List Cell) (ml : Nat) (hml : ml ≤ 61) (hn : a.
     have : Nat.log2 a.length < 62 := (Nat.log2_lt hpos).mpr hn
     omega
 
+/-! # `index`
+
+`self.entries.sort_by_key(|e| e.interval.start)` is the abstract function `sortByStart` of the translated definition (the
+closure text is pinned by the translation spec); its contract — the trusted meaning of the standard library's sort, as far
+as the property needs it — is `SortContract`: a permutation that is sorted by start.  (Stability is not needed: the answer
+is compared as a multiset.) -/
+
+def SortContract (srt : List RCell → List RCell) : Prop := ∀ l, (srt l).Perm l ∧ SortedC (cells (srt l))
+
+/-- **`index` as written in the source**: on an un-indexed tree it sorts, runs the translated `index_core` and sets the
+flag; the cells are the model's `indexCore` of the sorted entries -/
+theorem index_eq_model (srt : List RCell → List RCell) (hs : SortContract srt) (es : List RCell) (ml : Nat)
+    (hn : es.length < 2 ^ 62) :
+    ∃ es', Gen.SrcIit.index Iit.max3 srt es ml false
+        = Res.ok (es', (Iit.indexCore (cells (srt es)) ml).2, true) ∧
+      cells es' = (Iit.indexCore (cells (srt es)) ml).1 := by
+  have hl : (srt es).length < 2 ^ 62 := by rw [(hs es).1.length_eq]; exact hn
+  obtain ⟨es', h1, h2⟩ := indexCore_eq_model (srt es) ml hl
+  exact ⟨es', by simp [Gen.SrcIit.index, h1], h2⟩
+
+/-- an indexed tree is left alone -/
+theorem index_indexed (srt : List RCell → List RCell) (es : List RCell) (ml : Nat) :
+    Gen.SrcIit.index Iit.max3 srt es ml true = Res.ok (es, ml, true) := by
+  simp [Gen.SrcIit.index]
+
 end RbV.Thm.GenSrcIit
